@@ -296,6 +296,7 @@ def vmethod(name):
 def writeback(ex, st, node, newval):
     """value semantics: after a mutating method the receiver expression is rebound to the new value."""
     tgt = node.func.value
+    ex.alias_guard(st, tgt)
     return ex.assign(st, tgt, newval)
 
 
@@ -315,6 +316,7 @@ def _m_get(ex, st, d, args, kwargs, node):
     res = ex.apply_op(st, alts, "dict.get")
     for s2, oc in res:
         if oc[0] == "val":
+            s2.derived.add(oc[1].get_id())
             s2.pc.append(z3.Implies(V.dict_has(d, key), __import__("pyvc.jsonish", fromlist=["x"]).component(d, V.dict_get(d, key))))
     return res
 
